@@ -37,7 +37,7 @@ ASSUMPTIONS = [
     'taxonomy and int/float columns convert on every row',
 ]
 ANCHORS = ['Table.add_metadata', 'Table.del_metadata', 'Table._cast_metadata', 'MetadataMap.from_file', '_add_metadata']
-REQUIRED = ['mapfile_odd_separator_characters_path', 'mapfile_empty_list_levels', 'mapfile_quotes_kept', 'other_tables_rechecked', 'built_with_one_entry_object',
+REQUIRED = ['mapfile_with_crlf_line_ends', 'mapfile_odd_separator_characters_path', 'mapfile_empty_list_levels', 'mapfile_quotes_kept', 'other_tables_rechecked', 'built_with_one_entry_object',
             'built_from_other_tables_metadata', 'add_metadata_calls', 'add_on_axis_without_metadata',
             'add_partial_overlap', 'add_overwrite_existing_key',
             'del_metadata_calls', 'del_on_jagged_metadata', 'del_keys_none',
@@ -422,8 +422,13 @@ def run_mapfile(ctx, r, index):
                                         header=opts['header'], **kw)
         else:
             p = ctx.path('c18_%d.txt' % index)
-            with open(p, 'w', encoding='utf-8') as f:
-                f.write(text)
+            with open(p, 'w', encoding='utf-8', newline='') as f:
+                if index % 4 == 1 and '\r' not in text:
+                    # the line ends another platform writes
+                    f.write(text.replace('\n', '\r\n'))
+                    ctx.count('mapfile_with_crlf_line_ends')
+                else:
+                    f.write(text)
             got = MetadataMap.from_file(p, process_fns=fns,
                                         header=opts['header'], **kw)
     finally:
@@ -486,8 +491,12 @@ def run_cli(ctx, r, index):
     for axis, (text, opts) in texts.items():
         p = ctx.path('c18map_%s_%d.txt' % (axis, index))
         files.append(p)
-        with open(p, 'w', encoding='utf-8') as f:
-            f.write(text)
+        with open(p, 'w', encoding='utf-8', newline='') as f:
+            if index % 4 == 2 and '\r' not in text:
+                f.write(text.replace('\n', '\r\n'))
+                ctx.count('mapfile_with_crlf_line_ends')
+            else:
+                f.write(text)
         args += [{'sample': '-m',
                   'observation': '--observation-metadata-fp'}[axis], p]
         if opts['header']:
